@@ -236,6 +236,9 @@ def _judge(ctx, oa, b, cfg, tr, bi, site, fams):
         r = _expect_of_uniform_index(b, tr, t, direct=True)
         if r:
             return 'discharged', 'index(uniform-index)', r
+        r = _slice_from_enumerate_index(b, cfg, tr, t)
+        if r:
+            return 'discharged', 'slice-from(enumerate-index+1)', r
         idx = tr.origin(t['args'][1])
         if idx['o'] == 'const' and b.file.endswith('to_svg.rs'):
             return 'table', ('svg', 'Vec-index', 'corners-or-items-constant-index'), ''
@@ -366,7 +369,7 @@ def _const_values(ctx, b, tr, op, depth=0):
     if o['o'] == 'const':
         v = const_value(o['c'])
         return [v] if isinstance(v, int) else 'non-integer constant'
-    if o['o'] == 'local' and not o['p']:
+    if o['o'] == 'local' and not [e for e in o['p'] if e not in ('ref', 'deref')]:
         ds = tr.defs.of(o['l'])
         vals = []
         for x in ds:
@@ -458,6 +461,59 @@ def _overflow(ctx, oa, b, cfg, tr, bi, t):
         if 'inner_steps' in flds:
             return 'table', ('stepping', sigk, 'loop_counter*inner_steps'), ''
     return 'violation', '%s/%s' % (b.fn_name, sigk), 'integer overflow check that is neither discharged nor tabled'
+
+
+def _slice_from_enumerate_index(b, cfg, tr, t):
+    """`v[i + c ..]` with c in {0, 1} and i the enumerate() index of a loop over the same, never resized, v: i < len(v), so the
+    start is at most len(v) and the slice is in bounds."""
+    from ..loops import for_loops, lift
+    from ..sym import SYM
+    if len(t['args']) != 2 or 'RangeFrom<' not in t['args'][1].get('ty', ''):
+        return None
+    ro = tr.origin(t['args'][1])
+    if not (ro['o'] == 'rvalue' and ro['rv'].get('r') == 'aggr' and ro['rv'].get('ops')):
+        return None
+    hdr = {}
+
+    def leaf(o):
+        fp = field_path(o.get('p', []))
+        if o['o'] == 'call' and call_matches(o['term'], '::next') and fp[-1:] == ['0'] and 'Enumerate' in o['term']['args'][0].get('ty', ''):
+            hdr['h'] = o['bb']
+            return SYM('i')
+        return None
+    e = lift(tr, ro['rv']['ops'][0], leaf)
+    if e is None or 'h' not in hdr:
+        return None
+    c = None
+    if e == SYM('i'):
+        c = 0
+    elif e[0] == 'bin' and e[1] == 'Add' and SYM('i') in (e[2], e[3]):
+        other = e[3] if e[2] == SYM('i') else e[2]
+        if other[0] == 'num' and other[1] in (0, 1):
+            c = int(other[1])
+    if c is None:
+        return None
+    loops = [d for d in for_loops(b, cfg, tr) if d['header'] == hdr['h']]
+    if len(loops) != 1:
+        return None
+    d = loops[0]
+    from ..lineage import IDENTITY_ADAPTORS
+    cont = container_root(b, tr, t['args'][0])
+    if cont is None or _resized(b, tr, cont):
+        return None
+    over = False
+    seen_enum = False
+    for nm, ct, cbb in d['chain_terms']:
+        if nm == 'enumerate':
+            seen_enum = True
+        elif nm not in IDENTITY_ADAPTORS:
+            break
+        if nm in ('iter', 'deref', 'into_iter', 'as_slice') and ct['args'] and container_root(b, tr, ct['args'][0]) == cont:
+            over = True
+            break
+    if not (over and seen_enum):
+        return None
+    return 'start = enumerate index%s of the loop over _%d itself (never resized): start <= len' % (' + 1' if c else '', cont)
 
 
 def _from_enumerate(b, tr, op):
